@@ -268,10 +268,10 @@ impl Segments {
         }
     }
 
-    // // Named like in rfc9293 SND.NEXT
-    // pub fn next_seq_nr(&self) -> SeqNr {
-    //     self.snd_una + self.segments.len() as u16
-    // }
+    // The sequence number the next enqueued segment would get.
+    pub fn next_seq_nr(&self) -> SeqNr {
+        self.snd_una + self.segments.len() as u16
+    }
 
     // SND.UNA: the first sequence number not acknowledged yet.
     pub fn snd_una(&self) -> SeqNr {
